@@ -246,12 +246,12 @@ func e2eref(args []string) int {
 		z, chg := 0, 0
 		switch f[0] {
 		case "ipfix":
-			z = zeroLenFields(cacheI)
+			z = zeroLenFields(cacheI, nil)
 			if fp := refDigest(cacheI); fp != fpI {
 				fpI, chg = fp, 1
 			}
 		case "nf9":
-			z = zeroLenFields(cache9)
+			z = zeroLenFields(cache9, nil)
 			if fp := refDigest(cache9); fp != fp9 {
 				fp9, chg = fp, 1
 			}
